@@ -173,10 +173,6 @@ fn gen_case(u: &mut Unstructured<'_>, min_steps: usize, max_steps: usize) -> arb
     }
 }
 
-fn dt_of_secs(s: i64) -> DateTime {
-    mk_dt(s as i128 * 1_000_000_000)
-}
-
 fn run_history(c: &Case, cx: &mut Cx) -> Verdict {
     if c.expr.len() > 300 || c.steps.len() > 64 {
         return Verdict::Skip("malformed case");
